@@ -42,6 +42,16 @@ CLAIMED.update({
     ),
 })
 
+CLAIMED.update({
+    "C11": (
+        "go/ssa forward byte-class dataflow over the three literal scanners (escaping discipline per target layer) + closed-form anchors of the emitting functions",
+        "For every one of the 256 byte values and each literal form at once: no metacharacter of a target layer (Go string literal, fmt format, hole syntax) is copied raw, every metacharacter has a branch writing exactly that layer's escape, "
+        "escape pairs are passed in input order, brace escapes are separated, the hole name is an untransformed sub-string, bytes >= 0x80 are only raw-copied. The buffers are tied to their layers by the emission templates.",
+        "Trusts Go's string-literal and fmt syntax. Does not decide bounds arithmetic of hole names nor undocumented escapes.",
+        "DESIGN.md §3 C11",
+    ),
+})
+
 NOT_APPLICABLE = {
 }
 
